@@ -385,33 +385,53 @@ def check_constructor(chk, repo):
                what='self.%s is %s' % (attr, show(w)),
                found=' | '.join(show(g) for g in got) or 'never stored',
                required=show(w))
-    # spline order
+    # spline order: evaluated per path (a conditional expression and an
+    # if/else statement are the same thing to the summariser)
     spl = set(unfwd(v) for v in finals.get('spline', set()))
+    spl_paths = []
+    for p in paths:
+        for e in p.stores():
+            if e[1] == A('spline'):
+                spl_paths.append((p, unfwd(e[2])))
     npts = ('call', ('name', 'len'), (sortedTs,), ())
     const_ok = False
-    order_ok = False
     order_found = ''
-    for v in spl:
+    interp = []
+    for p, v in spl_paths:
         if is_call(v) and v[1] == ('name', 'ConstantSpline'):
             const_ok = v[2] == (('sub', sortedCps, ('num', Fraction(0))),)
         elif is_call(v) and v[1] == ('name',
                                      'InterpolatedUnivariateSpline'):
             kw = dict(v[3])
-            order_found = show(kw.get('k', ('const', None)))
-            args_ok = v[2][:2] == (sortedTs, sortedCps)
             kexpr = kw.get('k')
             if kexpr is None and len(v[2]) >= 5:
                 kexpr = v[2][4]
-            good = kexpr is not None and args_ok
-            if good:
-                for N in range(2, 65):
-                    kv = eval_int(kexpr, {npts: N})
-                    if kv is None or not (1 <= kv <= min(3, N - 1)) \
-                            or kv != min(3, N - 1):
-                        good = False
-                        order_found += ' -> k(%d)=%r' % (N, kv)
-                        break
-            order_ok = good
+            interp.append((p, v, kexpr,
+                           v[2][:2] == (sortedTs, sortedCps)))
+    order_ok = bool(interp) and all(x[3] and x[2] is not None
+                                    for x in interp)
+    if order_ok:
+        for N in range(2, 65):
+            env = {npts: N}
+            n_feasible = 0
+            for p, v, kexpr, _ in interp:
+                feas = True
+                for c, pol in p.conds():
+                    t = eval_cond(unfwd(c), env)
+                    if t is not None and t != pol:
+                        feas = False
+                if not feas:
+                    continue
+                n_feasible += 1
+                kv = eval_int(kexpr, env)
+                if kv is None or kv != min(3, N - 1):
+                    order_ok = False
+                    order_found = '%s -> k(%d)=%r' % (show(kexpr), N, kv)
+            if not n_feasible:
+                order_ok = False
+                order_found = 'no interpolating spline for N=%d' % N
+            if not order_ok:
+                break
     chk.ob('R05.4', order_ok, RAW, f, key='spline-order',
            what='the interpolating spline is built on the sorted table with '
                 'order min(3, N-1) for N>=2', found=order_found)
@@ -543,10 +563,13 @@ def check_wrapper(chk, repo, rule_delegate='R05.6'):
                                      'correlation')
     exp_pair = ('call', A('_expand_ND_Cp_data'), (A('ND_Cp_data'),), ())
     for p, v in built:
-        def orzero(attr):
-            return ('ifexp', ('not', ('cmp', 'is', A(attr),
-                                      ('const', None))),
-                    A(attr), ('num', Fraction(0)))
+        def orzero(attr, p=p):
+            isnone = ('cmp', 'is', A(attr), ('const', None))
+            if p.says(isnone, False):
+                return A(attr)
+            if p.says(isnone, True):
+                return ('num', Fraction(0))
+            return ('ifexp', ('not', isnone), A(attr), ('num', Fraction(0)))
         want_args = (orzero('ND_H_ref'), orzero('ND_S_ref'),
                      ('sub', exp_pair, ('num', Fraction(0))),
                      ('sub', exp_pair, ('num', Fraction(1))),
